@@ -102,55 +102,66 @@ def run(rep):
                     lims[q] = (v - 10 * errs[q], v + 10 * errs[q])
             th.parameters_limits.update(lims)
             rep.hist('limits', 'near-limit')
-        before = dict(th.parameters)
-        ptb = dict(pt)
-        try:
-            r = th.predict(pt, uncertainty=True, observable=obs)
-            impl = (float(r[0]), float(r[1]))
-        except Exception as e:
-            impl = 'EXC:' + type(e).__name__
-        after = dict(th.parameters)
-        restored = all(f2hex(before[k]) == f2hex(after[k]) for k in before if k not in ('ng', 'Eng', 'kapg')) and set(before) == set(after)
-        # independent evaluations of the observable at the 2n+1 points (fresh parameter dict each time)
-        fun = getattr(th, obs)
-
-        def f_at(shift, th=th, fun=fun, pt=pt):
-            saved = dict(th.parameters)
+        # one or two rounds on the SAME theory object and point: before the second one the parameter values are changed
+        # by assignment (what a user exploring a model does) — nothing of the first round may survive
+        for rnd in range(2 if rng.random() < 0.4 else 1):
+            if rnd == 1:
+                for q in pars:
+                    th.parameters[q] = th.parameters[q] + rng.choice([-1, 1]) * rng.uniform(2, 6) * errs[q]
+                    if q in th.parameters_limits:
+                        th.parameters_limits[q] = (th.parameters[q] - 10 * errs[q], th.parameters[q] + 10 * errs[q])
+                rep.hist('rounds', 'second round after changing the parameter values')
+            before = dict(th.parameters)
+            ptb = dict(pt)
             try:
-                for k, v in shift.items():
-                    th.parameters[k] = saved[k] + v
-                return float(fun(pt))
-            finally:
-                th.parameters.clear(); th.parameters.update(saved)
-        try:
-            f0 = f_at({})
-            ups = [f_at({p: errs[p] / 2.}) for p in pars]
-            downs = [f_at({p: -errs[p] / 2.}) for p in pars]
-            plain = float(th.predict(pt, observable=obs))
-        except Exception as e:
-            f0 = ups = downs = plain = None
-        if f0 is None or isinstance(impl, str):
-            rep.case('exception', (kind, obs, c), nontrivial=False)
-            if isinstance(impl, str) != (f0 is None):
-                rep.violation('unc/exception', 'predict(uncertainty=True, observable=%s) %s while the plain evaluations %s' % (
-                    obs, impl, 'fail' if f0 is None else 'succeed'), dict(theory=kind, obs=obs, free=pars))
-            continue
-        theta = [before[p] for p in pars]
-        hs = [errs[p] for p in pars]
-        xs = theta + hs + [f0] + ups + downs
-        if C is not None:
-            xs += [float(C[i, j]) for i in range(len(pars)) for j in range(len(pars))]
-        lines.append('c18.unc %d %d %s' % (len(pars), 1 if C is not None else 0, ' '.join(map(f2hex, xs))))
-        meta.append(dict(kind=kind, obs=obs, free=pars, mode=mode, rel=rel, impl=impl, plain=plain, restored=restored,
-                         pt_ok=(dict(pt) == ptb), th=th, pt=pt, errs=errs, C=C, f_at=f_at, f0=f0,
-                         dataset=pt.get('id')))
-        rep.hist('mode', mode)
-        rep.hist('nfree', len(pars))
-        rep.hist('obs', obs)
+                r = th.predict(pt, uncertainty=True, observable=obs)
+                impl = (float(r[0]), float(r[1]))
+            except Exception as e:
+                impl = 'EXC:' + type(e).__name__
+            after = dict(th.parameters)
+            restored = all(f2hex(before[k]) == f2hex(after[k]) for k in before if k not in ('ng', 'Eng', 'kapg')) and set(before) == set(after)
+            # independent evaluations of the observable at the 2n+1 points (fresh parameter dict each time)
+            fun = getattr(th, obs)
+
+            def f_at(shift, th=th, fun=fun, pt=pt, base=dict(before)):
+                # always at THIS round's parameter values (the theory object may have moved on since)
+                saved = dict(th.parameters)
+                try:
+                    th.parameters.clear(); th.parameters.update(base)
+                    for k, v in shift.items():
+                        th.parameters[k] = base[k] + v
+                    return float(fun(pt))
+                finally:
+                    th.parameters.clear(); th.parameters.update(saved)
+            try:
+                f0 = f_at({})
+                ups = [f_at({p: errs[p] / 2.}) for p in pars]
+                downs = [f_at({p: -errs[p] / 2.}) for p in pars]
+                plain = float(th.predict(pt, observable=obs))
+            except Exception as e:
+                f0 = ups = downs = plain = None
+            if f0 is None or isinstance(impl, str):
+                rep.case('exception', (kind, obs, c), nontrivial=False)
+                if isinstance(impl, str) != (f0 is None):
+                    rep.violation('unc/exception', 'predict(uncertainty=True, observable=%s) %s while the plain evaluations %s' % (
+                        obs, impl, 'fail' if f0 is None else 'succeed'), dict(theory=kind, obs=obs, free=pars))
+                continue
+            theta = [before[p] for p in pars]
+            hs = [errs[p] for p in pars]
+            xs = theta + hs + [f0] + ups + downs
+            if C is not None:
+                xs += [float(C[i, j]) for i in range(len(pars)) for j in range(len(pars))]
+            lines.append('c18.unc %d %d %s' % (len(pars), 1 if C is not None else 0, ' '.join(map(f2hex, xs))))
+            meta.append(dict(kind=kind, obs=obs, free=pars, mode=mode, rel=rel, impl=impl, plain=plain, restored=restored, round=rnd,
+                             pt_ok=(dict(pt) == ptb), th=th, pt=pt, errs=errs, C=C, f_at=f_at, f0=f0,
+                             dataset=pt.get('id')))
+            rep.hist('mode', mode)
+            rep.hist('nfree', len(pars))
+            rep.hist('obs', obs)
     outs = common.run_driver(lines)
     for line, m, o in zip(lines, meta, outs):
         val, unc = [hex2f(x) for x in o.split()]
-        sample = {k: m[k] for k in ('kind', 'obs', 'free', 'mode', 'rel', 'impl', 'dataset')}
+        sample = {k: m[k] for k in ('kind', 'obs', 'free', 'mode', 'rel', 'impl', 'dataset', 'round')}
         rep.case('unc', line, sample=sample)
         base = dict(sample)
         if not m['restored']:
